@@ -215,6 +215,18 @@ def run_case(case):
     res = {'status': 'ok', 'fails': [], 'levels': [], 'draws': [], 'extra': {}}
     F = res['fails']
     hier = r in HIER
+    if case.get('start_from'):
+        # cross-routine refinement: the start is the output of another optimiser on the same network / gamma
+        sf = case['start_from']
+        sc = dict(case, routine=sf['routine'], opt=sf.get('opt'), ci0=None); sc.pop('start_from')
+        st0, out0, _ = invoke(bct, sc, sf['seed'], None, hierarchy=False)
+        if st0 != 'ok' or not labels_ok(out0[0], n):
+            res['status'] = 'start-' + st0
+            return res
+        case = dict(case); case.pop('start_from')
+        case['ci0'] = [int(x) for x in np.asarray(out0[0]).tolist()]
+        case['start_origin'] = '%s:%s:%d' % (sf['routine'], sf.get('opt'), sf['seed'])
+        res['case'] = case
     ci0 = case.get('ci0')
     st, out, rec = invoke(bct, case, case['seed'], ci0, hierarchy=hier, t=case.get('t', 6.0))
     res['status'] = st
@@ -494,6 +506,39 @@ WITNESSES = [
 ]
 
 
+CROSS_GAMMAS = ['3/4', '4/5', '6/5', '5/4', '13/10']
+
+
+def cross_sources(r, opt):
+    """optimisers whose output is a sensible (same objective) start for routine r"""
+    if r == 'modularity_finetune_und':
+        return [{'routine': 'modularity_louvain_und'}, {'routine': r}, {'routine': 'community_louvain', 'opt': 'modularity'}]
+    if r == 'modularity_finetune_dir':
+        return [{'routine': 'modularity_louvain_dir'}, {'routine': r}, {'routine': 'community_louvain', 'opt': 'modularity'}]
+    if r == 'modularity_finetune_und_sign':
+        s = [{'routine': 'modularity_louvain_und_sign', 'opt': opt}, {'routine': r, 'opt': opt}]
+        if opt == 'gja':
+            s.append({'routine': 'community_louvain', 'opt': 'negative_sym'})
+        if opt == 'sta':
+            s.append({'routine': 'community_louvain', 'opt': 'negative_asym'})
+        return s
+    if r == 'community_louvain':
+        s = [{'routine': r, 'opt': opt}]
+        if opt == 'modularity':
+            s += [{'routine': 'modularity_louvain_und'}, {'routine': 'modularity_finetune_dir'}]
+        if opt == 'negative_sym':
+            s.append({'routine': 'modularity_louvain_und_sign', 'opt': 'gja'})
+        if opt == 'negative_asym':
+            s.append({'routine': 'modularity_louvain_und_sign', 'opt': 'sta'})
+        return s
+    return []
+
+
+def _dyadic(g):
+    d = Fr(g).denominator
+    return d & (d - 1) == 0
+
+
 def gen_cases(rs, tier, routines=None):
     big = tier == 'thorough'
     cases = [dict(w) for w in WITNESSES if not routines or w['routine'] in routines]
@@ -585,6 +630,32 @@ def gen_cases(rs, tier, routines=None):
                 k = int(rs.randint(1, n + 1))
                 ci0 = encode_partition(rs, _rg_canon(rs.randint(0, k, size=n).tolist()))
             add(r, A, opt, ci0, **extra)
+    # (f) cross-routine refinement: start = output of the corresponding Louvain routine / of the routine itself / of
+    #     community_louvain where the objectives coincide, same network and gamma (near-optimal starts: a gain formula that
+    #     disagrees with the scored Q only slightly shows up here and nowhere else), gamma also off the dyadic grid
+    for (r, opt) in variants:
+        if r not in TAKES_CI or r == 'modularity_probtune_und_sign' or opt == 'custom':
+            continue
+        srcs = cross_sources(r, opt)
+        ntr = (3 if r in SIGN else 2) if not big else 25
+        for src in srcs:
+            for g in CROSS_GAMMAS:
+                for _ in range(ntr):
+                    n = int(rs.randint(8, 17))
+                    wmax = int(rs.choice([1, 3, 5])); dens = float(rs.choice([.3, .5, .7]))
+                    if r in SIGN or opt in ('negative_sym', 'negative_asym'):
+                        A = g_sign(rs, n, dens, wmax, mode=int(rs.choice([2, 3, 4, 5])))
+                        if opt in ('negative_sym', 'negative_asym') and src['routine'] == 'community_louvain' and rs.rand() < .4:
+                            A = rand_graph(rs, n, dens, True, wmax, signed=True)
+                    elif r in UND or src['routine'] in UND:
+                        A = g_und(rs, n, dens, wmax)
+                    elif opt == 'potts':
+                        A = g_dir(rs, n, dens, 1) if rs.rand() < .5 else g_und(rs, n, dens, 1)
+                    else:
+                        A = g_dir_adversarial(rs, n, wmax) if rs.rand() < .3 else (g_dir(rs, n, dens, wmax) if rs.rand() < .7 else g_und(rs, n, dens, wmax))
+                    if not valid(r, A, opt) or not valid(src['routine'], A, src.get('opt')):
+                        continue
+                    add(r, A, opt, None, gamma=g, start_from=dict(src, seed=rnd_seed()))
     # (c) modularity_und/_dir/_und_sign with a given partition, and their own spectral partition (kci=None)
     if not routines or any(g in routines for g in GIVEN):
         for r in GIVEN:
@@ -670,6 +741,7 @@ def run_check(ck, preds):
     else:
         cases = gen_cases(ck.rs, ck.tier)
     results = pmap(run_case, cases)
+    cases = [r.get('case', c) for c, r in zip(cases, results)]     # cross-routine cases now carry their resolved start
     qlines, qidx, rlines, ridx = [], [], [], []
     for n_, (c, r) in enumerate(zip(cases, results)):
         rt = c['routine'] + (':' + c['opt'] if c.get('opt') else '')
@@ -695,8 +767,12 @@ def run_check(ck, preds):
         if not failed & {'labels-1..k', 'q-equals-Q', 'given-partition-q'}:
             for h, (ci, q) in enumerate(r['levels']):
                 qlines.append(q_line(c, c['ci0'] if (c['routine'] in GIVEN and c.get('ci0') is not None) else ci)); qidx.append((n_, h))
-        if c['routine'] in REPLAY_OPS:
+        if c.get('start_origin'):
+            ck.count('cross_refinement_cases'); ck.count('cross_from:' + c['start_origin'].rsplit(':', 1)[0])
+        if c['routine'] in REPLAY_OPS and _dyadic(c['gamma']):
             rlines.append(replay_line(c, r)); ridx.append(n_)
+        elif c['routine'] in REPLAY_OPS:
+            ck.count('replay_skipped_nondyadic_gamma')   # float gamma is not the rational the model would use: oracle + q-line only
     if ok:
         try:
             outs = run_driver_par('Modularity', qlines + rlines)
